@@ -188,6 +188,8 @@ def own_masks(pit, prog):
 
 
 def flat_mult(model, prog):
+    if prog['head']['kind'] == 'flatcat':
+        return (model._sp_a, model._sp_b)
     if prog['head']['kind'] == 'flatadd':
         return model.head['fc'].in_features // 3
     if prog['head']['kind'] != 'flatlin':
